@@ -346,6 +346,7 @@ func (ms *Modules) Process() []error {
 	// made by the same caller.
 	ms.mergedSubmodule = map[string]bool{}
 	ms.includes = map[*Module]bool{}
+	ms.typeDict.newRun()
 	ms.ClearEntryCache()
 
 	errs := ms.process()
